@@ -161,10 +161,24 @@ func C02(run *core.Run) {
 			g.Event()
 		}
 		fs := g.Filters()
-		m := mocrelay.NewReqFiltersEventLimitMatcher(conc.Filters(fs))
+		dup := t%5 == 4 && len(fs) == 1
+		if dup { // the same filter twice in one list
+			fs = append(fs, fs[0])
+		}
+		cfs := conc.Filters(fs)
+		if dup {
+			cfs[1] = cfs[0] // ... as the very same *ReqFilter
+		}
+		m := mocrelay.NewReqFiltersEventLimitMatcher(cfs)
 		tr := tv.Trace{Name: fmt.Sprintf("matcher-%d", t)}
 		tr.Lines = append(tr.Lines, map[string]any{"op": "reset", "fs": abs.NormFilters(fs), "shape": describeFilters(fs)})
-		for i := 0; i < 12; i++ {
+		for i := 0; i < 18; i++ {
+			if i == 9 {
+				// a second matcher built from the very same filter values starts from zero
+				m = mocrelay.NewReqFiltersEventLimitMatcher(cfs)
+				tr.Lines = append(tr.Lines, map[string]any{"op": "reset", "fs": abs.NormFilters(fs), "shape": "second matcher from the same filters " + describeFilters(fs)})
+				tr.Lines = append(tr.Lines, map[string]any{"op": "done", "res": m.Done(), "shape": "done of a second matcher built from the same filters " + describeFilters(fs)})
+			}
 			e := g.Offer()
 			ce := conc.Event(e, "")
 			switch r.Intn(3) {
